@@ -225,7 +225,12 @@ where
     type Stream = Self;
 
     fn into_parts(self) -> (Vector<VectorDiffContainerStreamElement<S>>, Self::Stream) {
-        (self.buffered_vector.clone(), self)
+        // The initial values are the current view, not the buffered source.
+        let values = match self.count {
+            Some(count) => self.buffered_vector.clone().skeep(count),
+            None => Vector::new(),
+        };
+        (values, self)
     }
 }
 
